@@ -361,10 +361,22 @@ def gen(j, rng):
         setters.append(("breezeless", [True, False]))
     if p["breeze"] == "control":
         setters.append(("breeze_mild", [True, False]))
+    unsupported = []
+    if not p["angles"]:
+        unsupported += [("horizontal_swing_angle", ANGLES), ("vertical_swing_angle", ANGLES)]
+    if not p["rate"]:
+        unsupported.append(("rate_select", RATES5))
+    if not p["ieco"]:
+        unsupported.append(("ieco", [True, False]))
     ops = []
     for _ in range(rng.randint(2, 10)):
         r = rng.random()
-        if r < 0.45 and setters:
+        if r < 0.04 and unsupported:
+            # a setting the unit did not advertise: it is written once all the same (with a warning) and then
+            # forgotten like every other pending setting
+            attr, vals = rng.choice(unsupported)
+            ops.append({"op": "set", "attr": attr, "value": rng.choice(vals)})
+        elif r < 0.45 and setters:
             attr, vals = rng.choice(setters)
             ops.append({"op": "set", "attr": attr, "value": rng.choice(vals)})
         elif r < 0.52:
